@@ -894,4 +894,201 @@ theorem horzcat_as_written (d : α) (a : Operand α) (as : List (Operand α))
         exact hcore
 
 end run
+theorem vert_select_vec (n r : Nat) :
+    selectArm expectedVertcat.arms n r 1 =
+      if n = 1 then some ⟨(.lit 1, .any, .lit 1), ["VerticalConcatenateVD"], .none, .single⟩
+      else if n = 2 then some ⟨(.lit 2, .any, .lit 1), ["VerticalConcatenateVD2"], .vd .rows, .fields [0, 1]⟩
+      else if n = 3 then some ⟨(.lit 3, .any, .lit 1), ["VerticalConcatenateVD3"], .vd .rows, .fields [0, 1, 2]⟩
+      else if n = 4 then some ⟨(.lit 4, .any, .lit 1), ["VerticalConcatenateVD4"], .vd .rows, .fields [0, 1, 2, 3]⟩
+      else some ⟨(.any, .any, .lit 1), ["VerticalConcatenateVDN"], .vd .rows, .byKind .rows 1⟩ := by
+  simp only [expectedVertcat, selectArm_cons, admits_any, admits_lit, true_and, and_true, if_true, eq_comm (a := n)]
+
+theorem vert_select_mat (n r c : Nat) (hc : c ≠ 1) :
+    selectArm expectedVertcat.arms n r c =
+      if n = 2 then some ⟨(.lit 2, .any, .any), ["VerticalConcatenateTwoArgs"], .md .rows .cols, .fields [0, 1]⟩
+      else if n = 3 then some ⟨(.lit 3, .any, .any), ["VerticalConcatenateThreeArgs"], .md .rows .cols, .fields [0, 1, 2]⟩
+      else if n = 4 then some ⟨(.lit 4, .any, .any), ["VerticalConcatenateFourArgs"], .md .rows .cols, .fields [0, 1, 2, 3]⟩
+      else some ⟨(.any, .any, .any), ["VerticalConcatenateNArgs"], .md .rows .cols, .inOrder⟩ := by
+  have h1 : ¬ 1 = c := fun h => hc h.symm
+  simp only [expectedVertcat, selectArm_cons, admits_any, admits_lit, true_and, and_true, h1, and_false, if_false, if_true,
+    eq_comm (a := n)]
+
+theorem allMats_map_mat : ∀ (es : List (Mat α)), allMats (es.map .mat) = .ok es := by
+  intro es
+  induction es with
+  | nil => rfl
+  | cons e es ih => simp only [List.map_cons, allMats, asMat, ih]
+
+theorem vcatAll_ok : ∀ (bs : List (Mat α)) (acc : Mat α), (∀ b ∈ bs, b.cols = acc.cols) → ∃ r, vcatAll acc bs = .ok r := by
+  intro bs
+  induction bs with
+  | nil => intro acc _; exact ⟨acc, rfl⟩
+  | cons b bs ih =>
+    intro acc h
+    have hb : acc.cols = b.cols := (h b List.mem_cons_self).symm
+    simp only [vcatAll, vcat2, hb, if_true]
+    exact ih _ (fun x hx => by simpa [hb] using h x (List.mem_cons_of_mem _ hx))
+
+theorem flatMap_data_length_col (es : List (Mat α)) (hwf : ∀ e ∈ es, Mat.wf' e) (hc : ∀ e ∈ es, e.cols = 1) :
+    (es.flatMap (·.data)).length = sumRows es := by
+  induction es with
+  | nil => rfl
+  | cons e es ih =>
+    have he : e.data.length = e.rows * e.cols := hwf e List.mem_cons_self
+    rw [hc e List.mem_cons_self, Nat.mul_one] at he
+    simp only [List.flatMap_cons, List.length_append, he, sumRows, List.map_cons, List.sum_cons]
+    rw [ih (fun x hx => hwf x (List.mem_cons_of_mem _ hx)) (fun x hx => hc x (List.mem_cons_of_mem _ hx))]
+    rfl
+
+section run
+variable (impl : Routine → Mat α → Mat α → Nat → Except Err (Mat α × Nat))
+  (himpl : ∀ r m dst off, Mat.wf' m → impl r m dst off = modelImpl r m dst off)
+include himpl
+
+/-- the column-vector kernels of `vertcat` -/
+theorem vert_vec_core (d : α) (es : List (Mat α)) (hwf : ∀ e ∈ es, Mat.wf' e) (hc : ∀ e ∈ es, e.cols = 1) :
+    mapE (runLoop impl ⟨0, .copy_into_v, .offset, .add⟩ es (⟨sumRows es, 1, List.replicate (sumRows es) d⟩, 0)) (·.1)
+      = .ok ⟨sumRows es, 1, es.flatMap (·.data)⟩ := by
+  have hlen := flatMap_data_length_col es hwf hc
+  have := runLoop_lin impl himpl .copy_into_v rfl 0 es [] (List.replicate (sumRows es) d) [] (sumRows es) 1 hwf
+    (by rw [hlen, List.length_replicate]; exact Nat.le_refl _)
+  simp only [List.nil_append, List.append_nil, List.length_nil] at this
+  rw [this]
+  simp only [mapE, Except.ok.injEq, Mat.mk.injEq, true_and]
+  rw [List.drop_eq_nil_of_le (by rw [hlen, List.length_replicate]; exact Nat.le_refl _), List.append_nil]
+
+/-- the matrix kernels of `vertcat`: every block copied below the one before is the stacked matrix -/
+theorem vert_mats_core (d : α) (a : Mat α) (as : List (Mat α)) (hwf : ∀ e ∈ a :: as, Mat.wf' e)
+    (hc : ∀ e ∈ as, e.cols = a.cols) :
+    mapE (runLoop impl ⟨0, .copy_into_row_major, .offset, .add⟩ (a :: as)
+        (⟨sumRows (a :: as), a.cols, List.replicate (sumRows (a :: as) * a.cols) d⟩, 0)) (·.1)
+      = vcatAll a as := by
+  obtain ⟨r, hr⟩ := vcatAll_ok as a hc
+  obtain ⟨rwf, rcols, rrows, _, rget⟩ := vcatAll_spec as a r (hwf a List.mem_cons_self)
+    (fun x hx => hwf x (List.mem_cons_of_mem _ hx)) hr
+  have hc' : ∀ e ∈ a :: as, e.cols = a.cols := by
+    intro e he
+    cases List.mem_cons.mp he with
+    | inl h => rw [h]
+    | inr h => exact hc e h
+  obtain ⟨out, hrun, orows, ocols, owf, oget⟩ := runLoop_rowMajor impl himpl 0 (a :: as) 0
+    ⟨sumRows (a :: as), a.cols, List.replicate (sumRows (a :: as) * a.cols) d⟩ hwf hc'
+    (by simp only [Mat.wf', List.length_replicate]) (by simp only [Nat.zero_add]; exact Nat.le_refl _)
+  rw [hrun, hr]
+  simp only [mapE, Except.ok.injEq]
+  simp only at orows ocols oget
+  apply mat_ext out r (by rw [orows, rrows]) (by rw [ocols, rcols]) owf rwf
+  intro i j hi hj
+  rw [orows] at hi
+  rw [ocols] at hj
+  rw [oget i j hi hj, rget i j (by rw [rrows]; exact hi) (by rw [rcols]; exact hj)]
+  have : 0 ≤ i ∧ i < 0 + sumRows (a :: as) := by omega
+  rw [if_pos this, Nat.sub_zero]
+
+
+theorem vertcat_as_written (d : α) (a : Mat α) (as : List (Mat α))
+    (hwf : ∀ e ∈ a :: as, Mat.wf' e) (hcols : ∀ e ∈ as, e.cols = a.cols) :
+    evalCat impl expectedVertcat expectedSolves d ((a :: as).map .mat) = vcatAll a as := by
+  have hb : ((a :: as).map Operand.mat).map blockOf = a :: as := by
+    simp only [List.map_map]
+    exact List.map_id' (a :: as)
+  have hr : expectedVertcat.rows.eval (a :: as) = sumRows (a :: as) := rfl
+  have hc : expectedVertcat.cols.eval (a :: as) = a.cols := rfl
+  have hcols' : ∀ e ∈ a :: as, e.cols = a.cols := by
+    intro e he
+    cases List.mem_cons.mp he with
+    | inl h => rw [h]
+    | inr h => exact hcols e h
+  have hall := allMats_map_mat (a :: as)
+  simp only [evalCat, hb, hr, hc, List.length_map]
+  by_cases h1 : a.cols = 1
+  · have hc1 : ∀ e ∈ a :: as, e.cols = 1 := fun e he => by rw [hcols' e he, h1]
+    rw [vcatAll_col1 as a (hwf a List.mem_cons_self) (fun x hx => hwf x (List.mem_cons_of_mem _ hx)) h1
+      (fun x hx => hc1 x (List.mem_cons_of_mem _ hx))]
+    have hcore := vert_vec_core impl himpl d (a :: as) hwf hc1
+    have hS : a.rows + sumRows as = sumRows (a :: as) := by simp [sumRows]
+    have hdata : a.data ++ as.flatMap (·.data) = (a :: as).flatMap (·.data) := by simp
+    rw [h1, vert_select_vec, hS, hdata]
+    have l1 : lookupSolve expectedSolves "VerticalConcatenateVD" = some .nop := by decide
+    have l2 : lookupSolve expectedSolves "VerticalConcatenateVD2" = some (.seq (seqOf .copy_into_v 2)) := by decide
+    have l3 : lookupSolve expectedSolves "VerticalConcatenateVD3" = some (.seq (seqOf .copy_into_v 3)) := by decide
+    have l4 : lookupSolve expectedSolves "VerticalConcatenateVD4" = some (.seq (seqOf .copy_into_v 4)) := by decide
+    have ln : lookupSolve expectedSolves "VerticalConcatenateVDN" = some (.indexed .copy_into_v) := by decide
+    match as, hwf, hc1, hall, hcore with
+    | [], hwf, hc1, hall, hcore =>
+      have hw : a.data.length = a.rows := by rw [hwf a List.mem_cons_self, h1, Nat.mul_one]
+      simp [Alloc.buffer, l1, blockOf, sumRows, ← h1]
+    | [b], hwf, hc1, hall, hcore =>
+      have hn : (a :: [b]).length = 2 := rfl
+      simp only [hn, (by decide : ¬ (2 : Nat) = 1), if_false, if_true, Alloc.buffer, Dim.pick, l2, List.map_cons, List.map_nil,
+        List.getElem?_cons_zero, List.getElem?_cons_succ, Option.getD_some, allMats, asMat, runSeq2]
+      exact hcore
+    | [b, c], hwf, hc1, hall, hcore =>
+      have hn : (a :: [b, c]).length = 3 := rfl
+      simp only [hn, (by decide : ¬ (3 : Nat) = 1), (by decide : ¬ (3 : Nat) = 2), if_false, if_true, Alloc.buffer, Dim.pick, l3,
+        List.map_cons, List.map_nil,
+        List.getElem?_cons_zero, List.getElem?_cons_succ, Option.getD_some, allMats, asMat, runSeq3]
+      exact hcore
+    | [b, c, e], hwf, hc1, hall, hcore =>
+      have hn : (a :: [b, c, e]).length = 4 := rfl
+      simp only [hn, (by decide : ¬ (4 : Nat) = 1), (by decide : ¬ (4 : Nat) = 2), (by decide : ¬ (4 : Nat) = 3), if_false, if_true,
+        Alloc.buffer, Dim.pick, l4, List.map_cons, List.map_nil,
+        List.getElem?_cons_zero, List.getElem?_cons_succ, Option.getD_some, allMats, asMat, runSeq4]
+      exact hcore
+    | b :: c :: e :: f :: rest, hwf, hc1, hall, hcore =>
+      have h1' : ¬ rest.length + 1 + 1 + 1 + 1 + 1 = 1 := by omega
+      have h2 : ¬ rest.length + 1 + 1 + 1 + 1 + 1 = 2 := by omega
+      have h3 : ¬ rest.length + 1 + 1 + 1 + 1 + 1 = 3 := by omega
+      have h4 : ¬ rest.length + 1 + 1 + 1 + 1 + 1 = 4 := by omega
+      simp only [List.length_cons, h1', h2, h3, h4, if_false, Alloc.buffer, Dim.pick, ln]
+      have hlen := flatMap_data_length_col _ hwf hc1
+      have hfm : ((a :: b :: c :: e :: f :: rest).map Operand.mat).flatMap chunk = (a :: b :: c :: e :: f :: rest).flatMap (·.data) := by
+        rw [flatMap_chunk, List.map_map]
+        exact congrArg _ (List.map_id' _)
+      rw [indexed_core impl himpl d .copy_into_v rfl .rows _ _ _ _ ?_ ?_ (by rw [hfm]; exact hlen), hfm]
+      · intro x hx
+        obtain ⟨m, hm, rfl⟩ := List.mem_map.mp hx
+        exact hwf m hm
+      · intro x hx
+        obtain ⟨m, hm, rfl⟩ := List.mem_map.mp hx
+        have : m.data.length = m.rows * m.cols := hwf m hm
+        rw [hc1 m hm, Nat.mul_one] at this
+        simp only [advOf, Dim.of, chunk_mat, this]
+  · have hcore := vert_mats_core impl himpl d a as hwf hcols
+    rw [vert_select_mat _ _ _ h1]
+    have l2 : lookupSolve expectedSolves "VerticalConcatenateTwoArgs" = some (.seq (seqOf .copy_into_row_major 2)) := by decide
+    have l3 : lookupSolve expectedSolves "VerticalConcatenateThreeArgs" = some (.seq (seqOf .copy_into_row_major 3)) := by decide
+    have l4 : lookupSolve expectedSolves "VerticalConcatenateFourArgs" = some (.seq (seqOf .copy_into_row_major 4)) := by decide
+    have ln : lookupSolve expectedSolves "VerticalConcatenateNArgs" = some (.loop 0 ⟨0, .copy_into_row_major, .offset, .add⟩) := by decide
+    match as, hall, hcore with
+    | [], hall, hcore =>
+      have hn : ([a] : List (Mat α)).length = 1 := rfl
+      simp only [hn, (by decide : ¬ (1 : Nat) = 2), (by decide : ¬ (1 : Nat) = 3), (by decide : ¬ (1 : Nat) = 4), if_false,
+        Alloc.buffer, Dim.pick, ln, hall]
+      exact hcore
+    | [b], hall, hcore =>
+      have hn : (a :: [b]).length = 2 := rfl
+      simp only [hn, if_true, Alloc.buffer, Dim.pick, l2, List.map_cons, List.map_nil,
+        List.getElem?_cons_zero, List.getElem?_cons_succ, Option.getD_some, allMats, asMat, runSeq2]
+      exact hcore
+    | [b, c], hall, hcore =>
+      have hn : (a :: [b, c]).length = 3 := rfl
+      simp only [hn, (by decide : ¬ (3 : Nat) = 2), if_false, if_true, Alloc.buffer, Dim.pick, l3,
+        List.map_cons, List.map_nil,
+        List.getElem?_cons_zero, List.getElem?_cons_succ, Option.getD_some, allMats, asMat, runSeq3]
+      exact hcore
+    | [b, c, e], hall, hcore =>
+      have hn : (a :: [b, c, e]).length = 4 := rfl
+      simp only [hn, (by decide : ¬ (4 : Nat) = 2), (by decide : ¬ (4 : Nat) = 3), if_false, if_true,
+        Alloc.buffer, Dim.pick, l4, List.map_cons, List.map_nil,
+        List.getElem?_cons_zero, List.getElem?_cons_succ, Option.getD_some, allMats, asMat, runSeq4]
+      exact hcore
+    | b :: c :: e :: f :: rest, hall, hcore =>
+      have h2 : ¬ rest.length + 1 + 1 + 1 + 1 + 1 = 2 := by omega
+      have h3 : ¬ rest.length + 1 + 1 + 1 + 1 + 1 = 3 := by omega
+      have h4 : ¬ rest.length + 1 + 1 + 1 + 1 + 1 = 4 := by omega
+      simp only [List.length_cons, h2, h3, h4, if_false, Alloc.buffer, Dim.pick, ln, hall]
+      exact hcore
+
+end run
 end MechVerif.ConcatIR
